@@ -44,7 +44,7 @@ for P in "$@"; do
   VERIF_REPO="$S/repo" VERIF_DIR="$S/vd" timeout 1800 "$S/verif/check.sh" "$P" quick > "$S/check_$P.log" 2>&1; RC=$?
   grep -E "^ +[0-9]+ x |^C[0-9]+ |INCONCL|BUILD" "$S/check_$P.log" | head -8 | cut -c1-160
   RESULTS="$RESULTS $P:exit=$RC"
-  grep -E "^ +[0-9]+ x " "$S/check_$P.log" | head -5 > "$D/caught_by_$P.txt"
+  grep -E "^ +[0-9]+ x " "$S/check_$P.log" | sort -rn | head -8 > "$D/caught_by_$P.txt"
 done
 echo "RESULT $NAME:$RESULTS"
 echo "$RESULTS" > "$D/results.txt"
